@@ -14,6 +14,7 @@ import (
 	"verif/harness/astx"
 	"verif/harness/gen"
 	"verif/harness/harn"
+	"verif/harness/reftok"
 )
 
 func showTok(src string, t parser.Token) string {
@@ -48,10 +49,39 @@ func rtokMatches(s parser.Token, r astx.RTok) bool {
 			return false
 		}
 		return s.Value == r.Value
-	case parser.TokenQuotedIdentifier, parser.TokenNumber, parser.TokenString:
+	case parser.TokenNumber:
+		// s comes from the reference tokenizer: exact rational value
+		v, _ := gen.NumValue(r.Value)
+		return v != nil && s.Value == "#"+v.RatString()
+	case parser.TokenQuotedIdentifier, parser.TokenString:
 		return s.Value == r.Value
 	}
 	return true
+}
+
+var refToParser = func() map[reftok.Kind]parser.TokenKind {
+	m := map[reftok.Kind]parser.TokenKind{}
+	for pk, rk := range kindMap {
+		m[rk] = pk
+	}
+	return m
+}()
+
+// refTokens converts the reference tokenization of src into parser tokens
+// (numbers carry the decimal spelling of their exact value).
+func refTokens(src string) ([]parser.Token, string) {
+	var out []parser.Token
+	for _, t := range reftok.Scan(src) {
+		if t.Kind == reftok.Error {
+			return nil, fmt.Sprintf("the source holds an unrecognisable piece %+q at [%d,%d)", src[t.Start:t.End], t.Start, t.End)
+		}
+		tok := parser.Token{Kind: refToParser[t.Kind], Span: parser.Span{Start: t.Start, End: t.End}, Value: t.Value}
+		if t.Kind == reftok.Number {
+			tok.Value = "#" + t.Num.RatString()
+		}
+		out = append(out, tok)
+	}
+	return out, ""
 }
 
 // dropEmptyStatements removes the semicolons that only delimit empty
@@ -78,11 +108,18 @@ func checkAccept(src string) (msg string, accepted, usedAbsence bool) {
 	if err != nil {
 		return "", false, false
 	}
-	toks := parser.Scan(src)
-	for _, t := range toks {
+	for _, t := range parser.Scan(src) {
 		if t.Kind == parser.TokenError {
 			return fmt.Sprintf("accepted although the source holds the scan error %q at %v", t.Value, t.Span), true, false
 		}
+	}
+	// The source's token sequence is taken from the reference tokenizer, not
+	// from the scanner under test: a malformed number or an unrecognised
+	// character that the scanner swallows into a neighbouring token must still
+	// be accounted for.
+	toks, why := refTokens(src)
+	if why != "" {
+		return "accepted although " + why, true, false
 	}
 	s := dropEmptyStatements(toks)
 	usedAbsence = len(s) != len(toks)
